@@ -34,7 +34,7 @@ PROPS.update({
         "harness": "vh-index",
         "gen": ["index_fields"],
         "level_text": "Kernel-checked theorems for all histories of file-tagged mutations about executable models of LuaIndex::remove: module index (no node file list, ModuleInfo or fuzzy list mentions the removed file; all other entries unchanged), per-file maps and global_decl-shaped maps (remove_exact: the state after remove(f) has exactly the lookups, and for keyed maps the entry count, of the state built from the other files' mutations alone). Also proved: remove_exact for nested reference maps, signatures and the metatable map, the exact node arena and entry counts of the module index; for the doc-property index the theorem is false on the current code (witness + partial, open finding) and two member-index witnesses reproduce the open findings in the model. Type / operator / member indexes are modelled and tied (index.sym) but their remove theorems are not proved; beyond the tie they are covered by the oracle: the oracle removes and closes files of generated multi-file workspaces on the real EmmyLuaAnalysis and checks that no result mentions the file, that every per-file map has no entry for it, that add-then-remove of a probe file restores the full observable dump and does not grow any entry count of DbIndex::verif_report, and that removing everything empties every map.",
-        "level_note": "Trusted: Lean kernel, harness, the two correspondence runs (index.mod, index.db) as the tie. Theorems cover the index data structures, not the analyzers that feed them. Open findings: symbol-declared-in-several-files, class-bound-to-required-table.",
+        "level_note": "Trusted: Lean kernel, harness, the two correspondence runs (index.mod, index.db) as the tie. Theorems cover the index data structures, not the analyzers that feed them. Open findings are keyed by an input predicate AND the symptom kinds their root cause explains (type-in-several-files/doc-property, class-bound-to-required-table/member-reowning); any other differing observable in such a workspace (super types, member lists, other diagnostics, other entry counts) is reported as a violation.",
         "trusted_base": LIFE_TB,
         "assumptions": LIFE_ASSUME,
     },
@@ -42,7 +42,7 @@ PROPS.update({
         "harness": "vh-index",
         "gen": ["index_fields"],
         "level_text": "Kernel-checked theorems for all histories about the same models as C10: update(f) = remove + contributions leaves exactly the state that the other files' mutations followed by f's contributions build (update_exact for per-file, global_decl-shaped, nested reference and id-owned maps), hence re-submission is the identity whenever f's contributions are already last (readd_identity: every second re-submission, edit+restore after a re-submission); module index: re-submission idempotent and edit+restore = one re-submission at the level of the live set, hence (C33) of every require resolution. The doc-property index violates the law on the current code (witness, open finding). Everything that depends on the analyzers (which contributions a file makes given the others) is search-only: the oracle re-submits unchanged files and edit/restore pairs from a batch analysis or a reindex of generated multi-file workspaces and compares the full observable dump (diagnostics, per-token type/definition/hover doc, modules, require resolution, globals, types with members) and requires that no entry count of DbIndex::verif_report grows.",
-        "level_note": "Trusted: Lean kernel, harness, correspondence runs. A first re-submission moves a file's items to the end of shared vectors (proved exact law); the oracle treats multi-location definition lists as sets. Open findings: symbol-declared-in-several-files, class-bound-to-required-table.",
+        "level_note": "Trusted: Lean kernel, harness, correspondence runs. A first re-submission moves a file's items to the end of shared vectors (proved exact law); the oracle treats multi-location definition lists as sets. Open findings are keyed by an input predicate AND symptom kinds (type-in-several-files/doc-property, global-in-several-files/analysis-order, class-bound-to-required-table/member-reowning); every other differing observable is reported as a violation.",
         "trusted_base": LIFE_TB,
         "assumptions": LIFE_ASSUME,
     },
